@@ -546,3 +546,43 @@ func VH_Repeatable() {
 		vAssert(vEventDigest(e1) == d1, "C15/earlier-event-altered-by-a-later-coalesce")
 	}
 }
+
+// ---- C15: concurrent coalescing and ID resolution of different events ------------------------------
+
+func init() { vEntries["VH_ConcurrentResolve"] = VH_ConcurrentResolve }
+
+func VH_ConcurrentResolve() {
+	vInstallTableImage()
+	users, groups := NewUserCache(1000000000*60), NewGroupCache(1000000000*60)
+	n := vParam("threads", 2)
+	events := make([]*Event, n)
+	digests := make([]string, n)
+	// sequential reference: each group coalesced and resolved on its own, against fresh caches
+	for i := 0; i < n; i++ {
+		g := vParseGroup(vGroups[i%len(vGroups)], "9"+strconv.Itoa(i))
+		e, _ := CoalesceMessages(g)
+		if e != nil {
+			ResolveIDsFromCaches(e, NewUserCache(1000000000*60), NewGroupCache(1000000000*60))
+		}
+		digests[i] = vEventDigest(e) + "|N" + strconv.Itoa(len(e.User.Names)) + e.Summary.Actor.Primary
+	}
+	for i := 0; i < n; i++ {
+		i := i
+		g := vParseGroup(vGroups[i%len(vGroups)], "9"+strconv.Itoa(i)) // different messages per thread
+		vGo(func() {
+			e, _ := CoalesceMessages(g)
+			if e != nil {
+				ResolveIDsFromCaches(e, users, groups) // shared caches
+			}
+			events[i] = e
+		})
+	}
+	vJoin()
+	for i := 0; i < n; i++ {
+		e := events[i]
+		vAssert(e != nil, "C15/concurrent-coalesce-failed")
+		if e != nil {
+			vAssert(vEventDigest(e)+"|N"+strconv.Itoa(len(e.User.Names))+e.Summary.Actor.Primary == digests[i], "C15/concurrent-result-differs-from-sequential")
+		}
+	}
+}
